@@ -26,6 +26,8 @@ type killSpec struct {
 	A   Assign `json:"a"`
 	B   Assign `json:"b"`
 	N   int    `json:"n"`
+	// First: see killCase
+	First string `json:"first,omitempty"`
 }
 
 func TestC09KillChild(t *testing.T) {
@@ -39,7 +41,7 @@ func TestC09KillChild(t *testing.T) {
 		os.Exit(3)
 	}
 	tm := newTM(spec.Dir)
-	if tm.Load() != nil || tm.UpdateTargets(spec.A.request()) != nil {
+	if spec.First == "" && (tm.Load() != nil || tm.UpdateTargets(spec.A.request()) != nil) {
 		os.Exit(4)
 	}
 	var lim syscall.Rlimit
@@ -47,6 +49,12 @@ func TestC09KillChild(t *testing.T) {
 	lim.Cur = uint64(spec.N)
 	if syscall.Setrlimit(syscall.RLIMIT_FSIZE, &lim) != nil {
 		os.Exit(5)
+	}
+	if spec.First != "" {
+		// the very first start on this directory: the store is written for the first time by Load itself
+		if tm.Load() != nil {
+			os.Exit(0)
+		}
 	}
 	_ = tm.UpdateTargets(spec.B.request())
 	os.Exit(0)
@@ -105,7 +113,12 @@ func runKilled(specPath string) (killed bool, err error) {
 	}
 }
 
+// killCase: First "" - the process has acknowledged A and is killed while it persists B.  First "fresh": the directory
+// is empty, the process is killed during its very first start (the first write of the store is the one Load itself
+// does) or while it persists B after it; First "old": the same with a targets.json of an old version holding A.  The
+// previous assignment is then the empty one / A of the old file.
 type killCase struct {
+	First   string `json:"first,omitempty"`
 	A       Assign `json:"a"`
 	B       Assign `json:"b"`
 	Offsets []int  `json:"offsets"`
@@ -114,15 +127,32 @@ type killCase struct {
 func runKillCase(rec *vkit.Recorder, c *killCase) []vkit.Violation {
 	size := storeSize(c.A, c.B)
 	wantA, wantB := canonAssign(c.A), canonAssign(c.B)
+	if c.First == "fresh" {
+		wantA = canonAssign(Assign{})
+	}
 	var vs []vkit.Violation
+	lim := size
+	if c.First != "" {
+		first := storeSize(Assign{}, c.A)
+		if c.First == "fresh" {
+			first = storeSize(Assign{}, Assign{})
+		}
+		if first > lim {
+			lim = first
+		}
+	}
 	for _, n := range c.Offsets {
-		if n > size {
-			n = size
+		if n > lim {
+			n = lim
 		}
 		root, _ := ioutil.TempDir("", "c09-kill-")
 		store := filepath.Join(root, "store")
 		_ = os.MkdirAll(store, 0755)
-		spec := killSpec{Dir: store, A: c.A, B: c.B, N: n}
+		spec := killSpec{Dir: store, A: c.A, B: c.B, N: n, First: c.First}
+		if c.First == "old" {
+			old, _ := json.Marshal(c.A.request().Targets)
+			_ = ioutil.WriteFile(filepath.Join(store, "targets.json"), old, 0644)
+		}
 		sp := filepath.Join(root, "spec.json")
 		data, _ := json.Marshal(&spec)
 		_ = ioutil.WriteFile(sp, data, 0644)
@@ -135,7 +165,7 @@ func runKillCase(rec *vkit.Recorder, c *killCase) []vkit.Violation {
 		for r := 0; r < 3; r++ {
 			tm := newTMWired(store)
 			if err := tm.Load(); err != nil {
-				vs = append(vs, vkit.Violation{Key: "C09/killed-write/next-start-fails", Msg: fmt.Sprintf("process killed when the write of B reached byte %d of %d: start %d fails: %v", n, size, r+1, err)})
+				vs = append(vs, vkit.Violation{Key: "C09/killed-write/next-start-fails", Msg: fmt.Sprintf("process killed when the write of B reached byte %d of %d (first start %q): start %d fails: %v", n, size, c.First, r+1, err)})
 				break
 			}
 			got := canon(tm.TargetsInfo())
@@ -160,7 +190,10 @@ func runKillCase(rec *vkit.Recorder, c *killCase) []vkit.Violation {
 		if !killed {
 			cls = "write-completed"
 		}
-		rec.Eval(killed && wantA != wantB, vkit.Digest("kill", wantA, wantB, n), cls)
+		if c.First != "" {
+			cls += "/first-start-" + c.First
+		}
+		rec.Eval(killed && wantA != wantB, vkit.Digest("kill", c.First, wantA, wantB, n), cls)
 		if len(vs) > 0 {
 			return vs
 		}
@@ -179,8 +212,12 @@ func TestC09Kill(t *testing.T) {
 		} else {
 			c.B = genAssign(t, "B", max)
 		}
+		c.First = rapid.SampledFrom([]string{"", "", "fresh", "old"}).Draw(t, "first")
 		size := storeSize(c.A, c.B)
 		sizeA := storeSize(Assign{}, c.A)
+		if c.First == "fresh" {
+			sizeA = storeSize(Assign{}, Assign{})
+		}
 		n := 6
 		if vkit.Thorough() {
 			n = 16
@@ -196,6 +233,8 @@ func TestC09Kill(t *testing.T) {
 				off = sizeA + 1 // just beyond the size of the previous store
 			case 3:
 				off = sizeA - 1
+			case 4:
+				off = rapid.IntRange(0, sizeA).Draw(t, fmt.Sprintf("offA%d", i))
 			default:
 				off = rapid.IntRange(0, size).Draw(t, fmt.Sprintf("off%d", i))
 			}
